@@ -109,6 +109,15 @@ pub fn run_script(steps: Vec<GStep>) {
                 };
                 sched::gui_send(st.id, &line);
             }
+            GK::GoClockDepth { own, own_inc, opp, opp_inc, depth } => {
+                let white = rec.pos().map_or(true, |p| p.white_to_move());
+                let line = if white {
+                    format!("go depth {} wtime {} btime {} winc {} binc {}", depth, own, opp, own_inc, opp_inc)
+                } else {
+                    format!("go depth {} wtime {} btime {} winc {} binc {}", depth, opp, own, opp_inc, own_inc)
+                };
+                sched::gui_send(st.id, &line);
+            }
             GK::AwaitBest => sched::gui_await_best(),
             GK::AwaitReady => sched::gui_await_ready(readies),
             GK::Delay(ns) => sched::gui_delay(ns),
